@@ -50,7 +50,9 @@ def keydown_names(job: str, variant: int = 0):
         return ()
 
 
-ELAPSES = [0, 0.5, 30, 100, 480, 500, 1000, 3000, 10000, 45000, 0.25, 1234.5]
+# 0.1 / 16.7 are not dyadic: sums of them carry binary64 noise (0.30000000000000004), which every recorded checkpoint, a JSON round
+# trip and a resumed run must reproduce bit for bit
+ELAPSES = [0, 0.5, 30, 100, 480, 500, 1000, 3000, 10000, 45000, 0.25, 1234.5, 0.1, 0.1, 16.7]
 
 
 def random_command_text(rng, job, variant=0, console=True):
